@@ -19,6 +19,10 @@ import numpy as np
 import qcommon as qc
 
 
+class ImpossibleOutcome(Exception):
+    """A forced measurement outcome has probability 0 in the current state."""
+
+
 def make(repo_unused=None):
     """Import netqasm lazily (sys.path[0] is the repo under test) and build the classes."""
     from netqasm.backend.executor import Executor
@@ -71,7 +75,7 @@ def make(repo_unused=None):
                 b = forced
             p = p1 if b == 1 else 1 - p1
             if p < 1e-14:
-                raise RuntimeError(f"forced measurement outcome {b} has probability {p}")
+                raise ImpossibleOutcome(f"forced measurement outcome {b} has probability {p}")
             keep = mask if b == 1 else ~mask
             st = np.where(keep, self.state, 0)
             self.state = st / math.sqrt(p)
